@@ -47,6 +47,26 @@ def runOps (c : Cfg) : Obj → List Op → List String
     let r := step c o op
     (renderOut r.2 ++ " " ++ renderObj r.1) :: runOps c r.1 ops
 
+/-- `k+id` / `k-id` -/
+def change? (s : String) : Option (Nat × Bool × Nat) :=
+  match s.splitOn "+" with
+  | [k, i] => do let k ← parseNat? k; let i ← parseNat? i; pure (k, true, i)
+  | _ =>
+    match s.splitOn "-" with
+    | [k, i] => do let k ← parseNat? k; let i ← parseNat? i; pure (k, false, i)
+    | _ => none
+
+/-- `list.append(x)` / `if x in list: list.remove(x)` -/
+def applyChange (ls : List Nat) (ch : Nat × Bool × Nat) : List Nat :=
+  if ch.2.1 then ls ++ [ch.2.2] else ls.erase ch.2.2
+
+/-- the content of `clck_links` at each tick: the changes scheduled for the wait before tick `k` are applied, in order -/
+def linkScript (chs : List (Nat × Bool × Nat)) : Nat → List Nat → List Nat → List (Nat × List Nat)
+  | _, _, [] => []
+  | k, ls, d :: ds =>
+    let ls' := (chs.filter fun ch => ch.1 == k).foldl applyChange ls
+    (d, ls') :: linkScript chs (k + 1) ls' ds
+
 /-- `clck.*` verbs; the tick period is the one measured on the current tree -/
 def handle : List String → Option String
   | ["clck.run", t0, start, period, h, links, ds] => do
@@ -55,6 +75,14 @@ def handle : List String → Option String
       let c : Cfg := { tTick := Gen.tTickNs, period := period, links := links, handler := h }
       let r := step c (Obj.init start (t0 : Int)) (.start ds)
       pure (renderOut r.2 ++ " " ++ renderObj r.1)
+  | ["clck.links", t0, start, period, h, links, ds, chs] => do
+      let t0 ← parseNat? t0; let start ← parseNat? start; let period ← parseNat? period
+      let h ← bool? h; let links ← csv? links; let ds ← csv? ds
+      let chs ← if chs = "-" then some [] else (chs.splitOn ",").mapM change?
+      let c : Cfg := { tTick := Gen.tTickNs, period := period, links := links, handler := h }
+      let r := workerL c start (t0 : Int) (linkScript chs 0 links ds)
+      let o : Obj := { thread := true, src := some r.2.src, start := start, now := r.2.time }
+      pure (renderEvents (events r) ++ " " ++ renderObj o)
   | ["clck.hist", t0, start, period, h, links, ops] => do
       let t0 ← parseNat? t0; let start ← parseNat? start; let period ← parseNat? period
       let h ← bool? h; let links ← csv? links
